@@ -9,7 +9,7 @@ pub fn run(args: &Args) -> SubResult {
     let mut res = SubResult::new("C10", "c10_static");
     let thorough = args.thorough();
     let depth = if thorough { 6 } else { 5 };
-    res.bound = format!("keys k (types L reloadable, LS opt-out, V storable) and j; all histories of depth <= {depth} over 19 operations with deduplication on (source, cache contents, model graph, pinned set); constructors with_source / without_hot_reloading / source without hot-reloading support / source whose configure_hot_reloading keeps the sender and then fails; hash seeds 0,5");
+    res.bound = format!("keys k (types L reloadable, LS opt-out, V storable) and j; all histories of depth <= {depth} over 21 operations with deduplication on (source, cache contents, model graph, pinned set); constructors with_source / without_hot_reloading / source without hot-reloading support / source whose configure_hot_reloading keeps the sender and then fails; hash seeds 0,5");
     res.rule = "explicit-state BFS to the depth bound; a state is re-reached by replaying its history on a fresh real cache; oracle after every op: pinned values (get_or_insert, opt-out types, caches without reloader) keep value and reload id NEVER".into();
     let moves = vec![
         mv("load L k", &["load L k"]),
@@ -31,6 +31,8 @@ pub fn run(args: &Args) -> SubResult {
         mv("load ALS k", &["load ALS k"]),
         mv("load OLS k", &["load OLS k"]),
         mv("load OOLS k", &["load OOLS k"]),
+        mv("goi L k (AnyCache view)", &["agoi L k 74"]),
+        mv("goi V k (AnyCache view)", &["agoi V k 75"]),
     ];
     let mut cases = vec![];
     for ctor in ["hot", "nohot", "nosrc", "failcfg"] {
